@@ -372,10 +372,8 @@ Proof.
 Qed.
 
 (* ------------------------------------------------------------------------------------------------ *)
-(* The clean global statement "an accepted token stream has balanced, properly matched flow brackets" *)
-(* is FALSE for the faithful model (and for the code): [flow_sequence_entry_mapping_key] consumes a      *)
-(* FlowSequenceEnd that directly follows '?' (parser.rs: self.skip() in flow_sequence_entry_mapping_key), *)
-(* so the text "[ ? ] ]" -- one '[' and two ']' -- is accepted.                                         *)
+(* The bracket discipline of a token stream up to StreamEnd: every flow closer matches the innermost     *)
+(* open flow collection, none is open at StreamEnd.  (Proved below for every accepted stream.)         *)
 (* ------------------------------------------------------------------------------------------------ *)
 Fixpoint flow_balanced (l : list token) (stk : list bool) : bool :=
   match l with
@@ -395,15 +393,6 @@ Definition accepted_implies_balanced : Prop :=
   forall toks keep se fuel, snd (parse_all fuel (init_parser toks keep) se []) = PDone -> flow_balanced toks [] = true.
 
 Definition sp0 : span := span_empty {| m_index := 0; m_line := 0; m_col := 0 |}.
-Definition stray_closer_tokens : list token :=   (* the tokens of "[ ? ] ]" *)
-  [(sp0, TStreamStart); (sp0, TFlowSequenceStart); (sp0, TKey); (sp0, TFlowSequenceEnd); (sp0, TFlowSequenceEnd); (sp0, TStreamEnd)].
-
-Theorem accepted_implies_balanced_refuted : ~ accepted_implies_balanced.
-Proof.
-  intros H. specialize (H stray_closer_tokens false SEnded 20%nat).
-  assert (E : snd (parse_all 20 (init_parser stray_closer_tokens false) SEnded []) = PDone) by (vm_compute; reflexivity).
-  specialize (H E). vm_compute in H. discriminate.
-Qed.
 
 (* ================================================================================================ *)
 (* Scanner layer, over the character-level StrInput instance [str_ops]                               *)
@@ -680,15 +669,41 @@ Inductive damaged : list N -> Prop :=
 | DSecondRoot f g : wf_ok false f -> wf_ok false g -> not_plain f = true ->
     damaged (render_flow f ++ [10] ++ render_flow g ++ [10]).                (* "[a]" NL "b"       *)
 
-Definition C06_full_flow_fragment : Prop := forall s, damaged s -> snd (run_str s) <> PDone.
+(* The two damage classes of known_findings_c06.jsonl that the model (like the code) still ACCEPTS, as operators of the same
+   kind: ill-formed by construction for every choice of the words. *)
+Inductive damaged_known : list N -> Prop :=
+| DLongFlowPairKey k v : lower_word k -> lower_word v -> (1024 < length k)%nat ->
+    damaged_known ([91; 32] ++ k ++ [58; 32] ++ v ++ [32; 93; 10])          (* "[ kkkk...k: v ]", key > 1024 chars *)
+| DFlowContinuationAtBlockIndent k a b : lower_word k -> lower_word a -> lower_word b ->
+    damaged_known (k ++ [58; 32; 91] ++ a ++ [44; 10; 39] ++ b ++ [39; 93; 10]).   (* "k: [a," NL "'b']" *)
 
-Lemma C06_full_flow_fragment_refuted : ~ C06_full_flow_fragment.
+(* the bracket / second-root fragment: neither proved nor refuted (needs the scanner half for all rendered trees) *)
+Definition C06_full_flow_fragment : Prop := forall s, damaged s -> snd (run_str s) <> PDone.
+(* all six operators *)
+Definition C06_full_damaged : Prop := forall s, damaged s \/ damaged_known s -> snd (run_str s) <> PDone.
+
+Lemma lower_word_repeat c n : 97 <= c -> c <= 122 -> (0 < n)%nat -> lower_word (repeat c n).
+Proof.
+  intros A B Hn. split.
+  - destruct n; [inversion Hn | discriminate].
+  - apply Forall_forall. intros x Hx. apply repeat_spec in Hx. subst x. split; assumption.
+Qed.
+
+Lemma C06_full_damaged_refuted : ~ C06_full_damaged.
 Proof.
   intros H.
-  assert (D : damaged (render_flow (WSeq [WEmptyKey]) ++ [32; 93; 10])).
-  { apply DStrayCloser; [ | reflexivity | left; reflexivity ].
-    apply OkSeq. repeat constructor. }
-  apply (H _ D). vm_compute. reflexivity.
+  assert (D : damaged_known ([107] ++ [58; 32; 91] ++ [97] ++ [44; 10; 39] ++ [98] ++ [39; 93; 10])).
+  { apply DFlowContinuationAtBlockIndent; (split; [discriminate | repeat constructor; cbv; discriminate]). }
+  apply (H _ (or_intror D)). vm_compute. reflexivity.
+Qed.
+
+(* the other remaining class refutes it as well *)
+Lemma long_flow_pair_key_damaged : damaged_known ([91; 32] ++ repeat 107 1025 ++ [58; 32] ++ [118] ++ [32; 93; 10]).
+Proof.
+  apply DLongFlowPairKey.
+  - apply lower_word_repeat; [cbv; discriminate | cbv; discriminate | apply Nat.ltb_lt; vm_compute; reflexivity].
+  - split; [discriminate | repeat constructor; cbv; discriminate].
+  - rewrite repeat_length. apply Nat.ltb_lt. vm_compute. reflexivity.
 Qed.
 
 (* ================================================================================================ *)
@@ -697,37 +712,8 @@ Qed.
 (* ahead close exactly the flow collections the state and the state stack have open.  Each step is      *)
 (* shown to preserve it BACKWARDS (goodness of the successor implies goodness of [p]); a run that ends   *)
 (* in PDone ends in a good state, hence the initial state is good, i.e. the whole stream is balanced.    *)
-(* The one defect of the code (the closer swallowed behind an empty explicit key) is part of [bal'].     *)
 (* ================================================================================================ *)
 Close Scope N_scope.
-(* bracket discipline of a token stream up to StreamEnd, with the defect of flow_sequence_entry_mapping_key built in:
-   inside a flow sequence a Key token directly followed by FlowSequenceEnd swallows that closer *)
-Fixpoint bal' (l : list token) (stk : list bool) : bool :=
-  match l with
-  | [] => false
-  | (_, t) :: r =>
-    match t with
-    | TStreamEnd => match stk with [] => true | _ => false end
-    | TFlowSequenceStart => bal' r (true :: stk)
-    | TFlowMappingStart => bal' r (false :: stk)
-    | TFlowSequenceEnd => match stk with true :: s => bal' r s | _ => false end
-    | TFlowMappingEnd => match stk with false :: s => bal' r s | _ => false end
-    | TKey => match r with
-              | (_, TFlowSequenceEnd) :: r' => match stk with true :: _ => bal' r' stk | _ => bal' r stk end
-              | _ => bal' r stk
-              end
-    | _ => bal' r stk
-    end
-  end.
-
-Definition balk (l : list token) (stk : list bool) : bool :=
-  match l with
-  | (_, TFlowSequenceEnd) :: r' => bal' r' stk
-  | _ => bal' l stk
-  end.
-
-Lemma bal'_key sp r X : bal' ((sp, TKey) :: r) (true :: X) = balk r (true :: X).
-Proof. cbn [bal']. unfold balk. destruct r as [|[sp2 tk2] r2]; [reflexivity|]. destruct tk2; reflexivity. Qed.
 
 Definition frames_of (s : pstate) : list bool :=
   match s with
@@ -740,8 +726,7 @@ Definition stack_open (l : list pstate) : list bool := flat_map frames_of l.
 Definition Good (p : parser) : Prop :=
   match p_state p with
   | SEnd => True
-  | SFlowSequenceEntryMappingKey => balk (toks_ahead p) (true :: stack_open (p_states p)) = true
-  | st => bal' (toks_ahead p) (frames_of st ++ stack_open (p_states p)) = true
+  | st => flow_balanced (toks_ahead p) (frames_of st ++ stack_open (p_states p)) = true
   end.
 
 Lemma peek_nil p : toks_ahead p = [] -> Parser.peek p = Parser.Err PErrScan.
@@ -752,17 +737,16 @@ Qed.
 (* tokens without influence on the bracket discipline *)
 Definition neutral (tk : tok) : bool :=
   match tk with
-  | TStreamEnd | TFlowSequenceStart | TFlowMappingStart | TFlowSequenceEnd | TFlowMappingEnd | TKey => false
+  | TStreamEnd | TFlowSequenceStart | TFlowMappingStart | TFlowSequenceEnd | TFlowMappingEnd => false
   | _ => true
   end.
-Lemma bal'_neutral sp tk r X : neutral tk = true -> bal' ((sp, tk) :: r) X = bal' r X.
+Lemma flow_balanced_neutral sp tk r X : neutral tk = true -> flow_balanced ((sp, tk) :: r) X = flow_balanced r X.
 Proof. destruct tk; cbn; try discriminate; reflexivity. Qed.
 
 Definition goodS (st : pstate) (toks : list token) (stk : list pstate) : Prop :=
   match st with
   | SEnd => True
-  | SFlowSequenceEntryMappingKey => balk toks (true :: stack_open stk) = true
-  | _ => bal' toks (frames_of st ++ stack_open stk) = true
+  | _ => flow_balanced toks (frames_of st ++ stack_open stk) = true
   end.
 Lemma Good_goodS p : Good p = goodS (p_state p) (toks_ahead p) (p_states p).
 Proof. unfold Good, goodS. destruct (p_state p); reflexivity. Qed.
@@ -783,15 +767,15 @@ Definition bpost (P : Prop) (r : res ((event * span) * parser)) : Prop :=
   | _ => True
   end.
 
-Lemma Rooted_head s r : Rooted (s :: r) -> s <> SEnd /\ s <> SFlowSequenceEntryMappingKey.
+Lemma Rooted_head s r : Rooted (s :: r) -> s <> SEnd.
 Proof.
-  intros H. inversion H as [|s' r' Hc Hr]; subst; [split; discriminate|].
-  destruct s; try discriminate; split; discriminate.
+  intros H. inversion H as [|s' r' Hc Hr]; subst; [discriminate|].
+  destruct s; try discriminate.
 Qed.
 
-Lemma goodS_plain s toks stk : s <> SEnd -> s <> SFlowSequenceEntryMappingKey ->
-  goodS s toks stk = (bal' toks (frames_of s ++ stack_open stk) = true).
-Proof. intros A B. destruct s; try reflexivity; congruence. Qed.
+Lemma goodS_plain s toks stk : s <> SEnd ->
+  goodS s toks stk = (flow_balanced toks (frames_of s ++ stack_open stk) = true).
+Proof. intros A. destruct s; try reflexivity; congruence. Qed.
 
 #[local] Arguments pop_state : simpl never.
 
@@ -800,7 +784,7 @@ Lemma bpost_pop (P : Prop) q e sp (k : parser -> parser) :
   Rooted (p_states q) ->
   (forall x, p_state (k x) = p_state x /\ p_states (k x) = p_states x) ->
   (forall s r, toks_ahead (k (set_state (set_states q r) s)) = toks_ahead (k q)) ->
-  (bal' (toks_ahead (k q)) (stack_open (p_states q)) = true -> P) ->
+  (flow_balanced (toks_ahead (k q)) (stack_open (p_states q)) = true -> P) ->
   bpost P (do x <- pop_state q; Parser.Ok ((e, sp), k x)).
 Proof.
   intros HR Hk Ht HP.
@@ -808,10 +792,10 @@ Proof.
   rewrite Hpop. cbn [bpost].
   destruct (Hk (set_state (set_states q r) s)) as [Hs Hss]. cbn in Hs, Hss.
   assert (HH : Rooted (s :: r)) by (rewrite <- Hst; exact HR).
-  destruct (Rooted_head _ _ HH) as [N1 N2].
+  pose proof (Rooted_head _ _ HH) as N1.
   split.
   - unfold first_ok. rewrite Hs. inversion HH as [|s' r' Hc Hr]; subst; [exact I|]. destruct s; try discriminate; exact I.
-  - rewrite Good_goodS, Hs, Hss, (goodS_plain _ _ _ N1 N2), Ht. intros H. apply HP.
+  - rewrite Good_goodS, Hs, Hss, (goodS_plain _ _ _ N1), Ht. intros H. apply HP.
     rewrite Hst. exact H.
 Qed.
 
@@ -825,7 +809,7 @@ Ltac bfin HT HR :=
 
 Lemma node_content_bal p aid tg b i :
   Rooted (p_states p) ->
-  bpost (bal' (toks_ahead p) (stack_open (p_states p)) = true) (node_content p aid tg b i).
+  bpost (flow_balanced (toks_ahead p) (stack_open (p_states p)) = true) (node_content p aid tg b i).
 Proof.
   intros HR. unfold node_content.
   destruct (toks_ahead p) as [|[sp tk] r] eqn:HT; [rewrite (peek_nil _ HT); exact I|].
@@ -836,7 +820,7 @@ Qed.
 Lemma node_props_toks q sp tk :
   p_token q = Some (sp, tk) ->
   match node_props q (sp, tk) with
-  | Parser.Ok (_, _, q') => p_states q' = p_states q /\ (forall X, bal' (toks_ahead q') X = bal' (toks_ahead q) X)
+  | Parser.Ok (_, _, q') => p_states q' = p_states q /\ (forall X, flow_balanced (toks_ahead q') X = flow_balanced (toks_ahead q) X)
   | _ => True
   end.
 Proof.
@@ -860,7 +844,7 @@ Qed.
 
 Lemma parse_node_bal p b i :
   Rooted (p_states p) ->
-  bpost (bal' (toks_ahead p) (stack_open (p_states p)) = true) (parse_node p b i).
+  bpost (flow_balanced (toks_ahead p) (stack_open (p_states p)) = true) (parse_node p b i).
 Proof.
   intros HR. unfold parse_node.
   destruct (toks_ahead p) as [|[sp tk] r] eqn:HT; [rewrite (peek_nil _ HT); exact I|].
@@ -870,7 +854,7 @@ Proof.
   assert (HRq : Rooted (p_states q)) by exact HR.
   assert (HTq : toks_ahead q = (sp, tk) :: r) by reflexivity.
   assert (General :
-    bpost (bal' ((sp, tk) :: r) (stack_open (p_states p)) = true)
+    bpost (flow_balanced ((sp, tk) :: r) (stack_open (p_states p)) = true)
           (do (aid, tg, p0) <- node_props q (sp, tk); node_content p0 aid tg b i)).
   { pose proof (node_props_toks q sp tk HQ) as HN.
     destruct (node_props q (sp, tk)) as [[[aid tg] q']|e|n]; try exact I.
@@ -887,16 +871,16 @@ Proof.
     destruct (pop_state_spec x HRq) as (s & r' & F' & Hst & Hpop & _ & _); rewrite Hpop end. cbn.
   destruct (assoc n (p_anchors p)); [|exact I].
   assert (HH : Rooted (s :: r')) by (rewrite <- Hst; exact HRq).
-  destruct (Rooted_head _ _ HH) as [N1 N2].
+  pose proof (Rooted_head _ _ HH) as N1.
   cbn [bpost]. split.
   - unfold first_ok. cbn. inversion HH as [|s' r'' Hc Hr]; subst; [exact I|]. destruct s; try discriminate; exact I.
-  - rewrite Good_goodS. cbn. rewrite (goodS_plain _ _ _ N1 N2). intros H.
+  - rewrite Good_goodS. cbn. rewrite (goodS_plain _ _ _ N1). intros H.
     cbn in Hst. rewrite Hst. exact H.
 Qed.
 
 (* ---- document level ---- *)
 Definition same_brackets (p q : parser) : Prop :=
-  p_state q = p_state p /\ p_states q = p_states p /\ forall X, bal' (toks_ahead q) X = bal' (toks_ahead p) X.
+  p_state q = p_state p /\ p_states q = p_states p /\ forall X, flow_balanced (toks_ahead q) X = flow_balanced (toks_ahead p) X.
 
 Lemma same_brackets_refl p : same_brackets p p.
 Proof. repeat split; reflexivity. Qed.
@@ -940,7 +924,7 @@ Qed.
 
 Lemma bpost_parse_node (P : Prop) q b i :
   Rooted (p_states q) ->
-  (bal' (toks_ahead q) (stack_open (p_states q)) = true -> P) ->
+  (flow_balanced (toks_ahead q) (stack_open (p_states q)) = true -> P) ->
   bpost P (parse_node q b i).
 Proof.
   intros HR HP. pose proof (parse_node_bal q b i HR) as H.
@@ -978,84 +962,84 @@ Ltac bstart HT :=
 
 Lemma block_mapping_key_bal p :
   Rooted (p_states p) ->
-  bpost (bal' (toks_ahead p) (stack_open (p_states p)) = true) (block_mapping_key p false).
+  bpost (flow_balanced (toks_ahead p) (stack_open (p_states p)) = true) (block_mapping_key p false).
 Proof. intros HR. unfold block_mapping_key. bstart HT; bx HT HR. Qed.
 
 Lemma block_mapping_first_key_bal p sp0 r0 :
   Rooted (p_states p) -> toks_ahead p = (sp0, TBlockMappingStart) :: r0 ->
-  bpost (bal' (toks_ahead p) (stack_open (p_states p)) = true) (block_mapping_key p true).
+  bpost (flow_balanced (toks_ahead p) (stack_open (p_states p)) = true) (block_mapping_key p true).
 Proof. intros HR HT. unfold block_mapping_key. rewrite (peek_norm _ _ _ HT). bx HT HR. Qed.
 
 Lemma block_mapping_value_bal p :
   Rooted (p_states p) ->
-  bpost (bal' (toks_ahead p) (stack_open (p_states p)) = true) (block_mapping_value p).
+  bpost (flow_balanced (toks_ahead p) (stack_open (p_states p)) = true) (block_mapping_value p).
 Proof. intros HR. unfold block_mapping_value. bstart HT; bx HT HR. Qed.
 
 Lemma block_sequence_entry_bal p :
   Rooted (p_states p) ->
-  bpost (bal' (toks_ahead p) (stack_open (p_states p)) = true) (block_sequence_entry p false).
+  bpost (flow_balanced (toks_ahead p) (stack_open (p_states p)) = true) (block_sequence_entry p false).
 Proof. intros HR. unfold block_sequence_entry. bstart HT; bx HT HR. Qed.
 
 Lemma block_sequence_first_entry_bal p sp0 r0 :
   Rooted (p_states p) -> toks_ahead p = (sp0, TBlockSequenceStart) :: r0 ->
-  bpost (bal' (toks_ahead p) (stack_open (p_states p)) = true) (block_sequence_entry p true).
+  bpost (flow_balanced (toks_ahead p) (stack_open (p_states p)) = true) (block_sequence_entry p true).
 Proof. intros HR HT. unfold block_sequence_entry. rewrite (peek_norm _ _ _ HT). bx HT HR. Qed.
 
 Lemma indentless_sequence_entry_bal p :
   Rooted (p_states p) ->
-  bpost (bal' (toks_ahead p) (stack_open (p_states p)) = true) (indentless_sequence_entry p).
+  bpost (flow_balanced (toks_ahead p) (stack_open (p_states p)) = true) (indentless_sequence_entry p).
 Proof. intros HR. unfold indentless_sequence_entry. bstart HT; bx HT HR. Qed.
 
 Lemma flow_sequence_entry_bal p :
   Rooted (p_states p) ->
-  bpost (bal' (toks_ahead p) (true :: stack_open (p_states p)) = true) (flow_sequence_entry p false).
+  bpost (flow_balanced (toks_ahead p) (true :: stack_open (p_states p)) = true) (flow_sequence_entry p false).
 Proof. intros HR. unfold flow_sequence_entry. bstart HT; bx HT HR. Qed.
 
 Lemma flow_sequence_first_entry_bal p sp0 r0 :
   Rooted (p_states p) -> toks_ahead p = (sp0, TFlowSequenceStart) :: r0 ->
-  bpost (bal' (toks_ahead p) (stack_open (p_states p)) = true) (flow_sequence_entry p true).
+  bpost (flow_balanced (toks_ahead p) (stack_open (p_states p)) = true) (flow_sequence_entry p true).
 Proof. intros HR HT. unfold flow_sequence_entry. rewrite (peek_norm _ _ _ HT). bx HT HR. Qed.
 
 Lemma flow_mapping_key_bal p :
   Rooted (p_states p) ->
-  bpost (bal' (toks_ahead p) (false :: stack_open (p_states p)) = true) (flow_mapping_key p false).
+  bpost (flow_balanced (toks_ahead p) (false :: stack_open (p_states p)) = true) (flow_mapping_key p false).
 Proof. intros HR. unfold flow_mapping_key. bstart HT; bx HT HR. Qed.
 
 Lemma flow_mapping_first_key_bal p sp0 r0 :
   Rooted (p_states p) -> toks_ahead p = (sp0, TFlowMappingStart) :: r0 ->
-  bpost (bal' (toks_ahead p) (stack_open (p_states p)) = true) (flow_mapping_key p true).
+  bpost (flow_balanced (toks_ahead p) (stack_open (p_states p)) = true) (flow_mapping_key p true).
 Proof. intros HR HT. unfold flow_mapping_key. rewrite (peek_norm _ _ _ HT). bx HT HR. Qed.
 
 Lemma flow_mapping_value_bal p empty :
   Rooted (p_states p) ->
-  bpost (bal' (toks_ahead p) (false :: stack_open (p_states p)) = true) (flow_mapping_value p empty).
+  bpost (flow_balanced (toks_ahead p) (false :: stack_open (p_states p)) = true) (flow_mapping_value p empty).
 Proof. intros HR. unfold flow_mapping_value. destruct empty; bstart HT; bx HT HR. Qed.
 
 Lemma fsem_key_bal p :
   Rooted (p_states p) ->
-  bpost (balk (toks_ahead p) (true :: stack_open (p_states p)) = true) (flow_sequence_entry_mapping_key p).
+  bpost (flow_balanced (toks_ahead p) (true :: stack_open (p_states p)) = true) (flow_sequence_entry_mapping_key p).
 Proof. intros HR. unfold flow_sequence_entry_mapping_key. bstart HT; bx HT HR. Qed.
 
 Lemma fsem_value_bal p :
   Rooted (p_states p) ->
-  bpost (bal' (toks_ahead p) (true :: stack_open (p_states p)) = true) (flow_sequence_entry_mapping_value p).
+  bpost (flow_balanced (toks_ahead p) (true :: stack_open (p_states p)) = true) (flow_sequence_entry_mapping_value p).
 Proof. intros HR. unfold flow_sequence_entry_mapping_value. bstart HT; bx HT HR. Qed.
 
 Lemma fsem_end_bal p m :
   Rooted (p_states p) ->
-  bpost (bal' (toks_ahead p) (true :: stack_open (p_states p)) = true) (flow_sequence_entry_mapping_end p m).
+  bpost (flow_balanced (toks_ahead p) (true :: stack_open (p_states p)) = true) (flow_sequence_entry_mapping_end p m).
 Proof. intros HR. unfold flow_sequence_entry_mapping_end. cbn [bpost]. split; [exact I|]. unfold Good. cbn. intro H; exact H. Qed.
 
 (* ---- document level (2) ---- *)
 Lemma stream_start_bal p :
-  p_states p = [] -> bpost (bal' (toks_ahead p) [] = true) (stream_start p).
+  p_states p = [] -> bpost (flow_balanced (toks_ahead p) [] = true) (stream_start p).
 Proof.
   intros EK. unfold stream_start. bstart HT. cbn beta iota. destruct t; try exact I.
   cbn [bpost]. split; [exact I|]. unfold Good. cbn. rewrite EK. cbn. intro H; exact H.
 Qed.
 
 Lemma explicit_document_start_bal p :
-  p_states p = [] -> bpost (bal' (toks_ahead p) [] = true) (explicit_document_start p).
+  p_states p = [] -> bpost (flow_balanced (toks_ahead p) [] = true) (explicit_document_start p).
 Proof.
   intros EK. unfold explicit_document_start.
   pose proof (process_directives_bal (S (S (length (p_toks p)))) p false []) as HP.
@@ -1068,7 +1052,7 @@ Proof.
 Qed.
 
 Lemma document_start_bal p implicit :
-  p_states p = [] -> bpost (bal' (toks_ahead p) [] = true) (document_start p implicit).
+  p_states p = [] -> bpost (flow_balanced (toks_ahead p) [] = true) (document_start p implicit).
 Proof.
   intros EK. unfold document_start.
   pose proof (skip_document_ends_bal (S (S (length (p_toks p)))) p) as HP.
@@ -1078,9 +1062,9 @@ Proof.
   rewrite (peek_norm _ _ _ HT). cbn beta iota.
   set (q1 := set_tok q r (Some (sp, tk))).
   assert (EQ : p_states q1 = []) by (unfold q1; cbn; congruence).
-  assert (TQ : forall X, bal' (toks_ahead q1) X = bal' (toks_ahead p) X).
+  assert (TQ : forall X, flow_balanced (toks_ahead q1) X = flow_balanced (toks_ahead p) X).
   { intros X. rewrite <- C. reflexivity. }
-  assert (Expl : bpost (bal' (toks_ahead p) [] = true) (explicit_document_start q1)).
+  assert (Expl : bpost (flow_balanced (toks_ahead p) [] = true) (explicit_document_start q1)).
   { pose proof (explicit_document_start_bal q1 EQ) as H.
     destruct (explicit_document_start q1) as [[ev p']|e|n]; try exact I.
     cbn [bpost] in *. destruct H as [H1 H2]. split; [exact H1|]. intros G. rewrite <- TQ. exact (H2 G). }
@@ -1098,7 +1082,7 @@ Qed.
 
 Lemma document_content_bal p :
   Rooted (p_states p) ->
-  bpost (bal' (toks_ahead p) (stack_open (p_states p)) = true) (document_content p).
+  bpost (flow_balanced (toks_ahead p) (stack_open (p_states p)) = true) (document_content p).
 Proof.
   intros HR. unfold document_content. bstart HT. cbn beta iota.
   destruct t; try (apply bpost_parse_node; [cbn; exact HR | cbn; rewrite ?HT; cbn; intro H; exact H]);
@@ -1107,7 +1091,7 @@ Proof.
 Qed.
 
 Lemma document_end_bal p :
-  p_states p = [] -> bpost (bal' (toks_ahead p) [] = true) (document_end p).
+  p_states p = [] -> bpost (flow_balanced (toks_ahead p) [] = true) (document_end p).
 Proof.
   intros EK. unfold document_end. bstart HT. cbn beta iota.
   destruct t; cbn beta iota; destruct (p_keep_tags _); cbn;
@@ -1165,45 +1149,11 @@ Proof.
   - cbn in HD'. discriminate.
 Qed.
 
-(* Every token stream the parser accepts (for ANY token list, scanner ending and fuel) obeys the bracket discipline
-   [bal']: flow brackets are balanced and matched up to StreamEnd -- except for the closers swallowed behind '?'. *)
-Theorem accepted_implies_balanced_modulo_swallowed_closer toks keep se fuel :
-  snd (parse_all fuel (init_parser toks keep) se []) = PDone -> bal' toks [] = true.
+(* Every token stream the parser accepts (for ANY token list, scanner ending and fuel) obeys the bracket discipline:
+   flow brackets are balanced and matched up to StreamEnd -- no flow collection open at StreamEnd, no closer of the
+   wrong kind, no stray closer. *)
+Theorem accepted_implies_balanced_proved : accepted_implies_balanced.
 Proof.
-  intros H. pose proof (parse_all_good fuel _ se [] GInit (init_inv toks keep) I H) as G.
+  intros toks keep se fuel H. pose proof (parse_all_good fuel _ se [] GInit (init_inv toks keep) I H) as G.
   exact G.
-Qed.
-
-(* ... and when no Key token is directly followed by FlowSequenceEnd the discipline is the plain one *)
-Fixpoint no_key_then_closer (l : list token) : bool :=
-  match l with
-  | (_, TKey) :: (((_, TFlowSequenceEnd) :: _) as r) => false
-  | _ :: r => no_key_then_closer r
-  | [] => true
-  end.
-
-Lemma no_key_then_closer_tl t r : no_key_then_closer (t :: r) = true -> no_key_then_closer r = true.
-Proof.
-  destruct t as [sp tk]. destruct tk; cbn; try (intro H; exact H).
-  destruct r as [|[sp2 tk2] r2]; [reflexivity|]. destruct tk2; try (intro H; exact H). discriminate.
-Qed.
-
-Lemma bal'_plain l : forall stk, no_key_then_closer l = true -> bal' l stk = flow_balanced l stk.
-Proof.
-  induction l as [|[sp tk] r IH]; intros stk H; [reflexivity|].
-  pose proof (no_key_then_closer_tl _ _ H) as Hr.
-  destruct tk; cbn [bal' flow_balanced]; try (apply IH; exact Hr); try reflexivity;
-    try (destruct stk as [|[|] s]; try reflexivity; apply IH; exact Hr).
-  (* Key *)
-  destruct r as [|[sp2 tk2] r2]; [reflexivity|].
-  destruct tk2; try (apply IH; exact Hr).
-  cbn in H. discriminate.
-Qed.
-
-Theorem accepted_implies_balanced_without_swallowed_closer toks keep se fuel :
-  no_key_then_closer toks = true ->
-  snd (parse_all fuel (init_parser toks keep) se []) = PDone -> flow_balanced toks [] = true.
-Proof.
-  intros HN H. rewrite <- (bal'_plain toks [] HN).
-  exact (accepted_implies_balanced_modulo_swallowed_closer toks keep se fuel H).
 Qed.
